@@ -41,6 +41,8 @@ type c12Out struct {
 	Sent int // ub: bytes of the body sent before the connection is cut (-1: the short default)
 }
 
+var c12Zone int
+
 func (o c12Out) ok() bool { return o.Kind == "reply" && o.Code == 200 }
 
 // status is the canonical last-emit status a delivery with this outcome must leave.
@@ -538,6 +540,11 @@ func (m *c12Impl) do(line string) (obs c12Obs) {
 			obs.Refused = strings.TrimPrefix(l, "refused:")
 		}
 	case "notify":
+		// the zone of the process changes between deliveries (daylight saving ends while the service runs; a restart under
+		// another TZ): nothing about counting, deactivation or the reported status may depend on it
+		c12Zone++
+		zones := []*time.Location{time.FixedZone("CEST", 2*3600), time.FixedZone("CET", 3600), time.UTC, time.FixedZone("EST", -5*3600), time.FixedZone("NPT", 5*3600+45*60)}
+		time.Local = zones[(c12Zone/3)%len(zones)]
 		outs := map[string]c12Out{}
 		for _, p := range w[2:] {
 			kv := strings.SplitN(p, "=", 2)
